@@ -3,4 +3,4 @@ Require Extraction.
 Require Import ExtrOcamlBasic.
 Require Import Base Suggestion PosConv.
 Extraction Language OCaml.
-Extraction "../ocaml/gen/c08_model.ml" run_span_to_range run_range_to_span run_range_to_span_fixed run_resolve run_resolve_lsp run_client_apply_lsp run_text_edit run_client_apply run_apply.
+Extraction "../ocaml/gen/c08_model.ml" run_span_to_range run_range_to_span run_range_to_span_old run_resolve run_resolve_lsp run_client_apply_lsp run_text_edit run_client_apply run_apply.
